@@ -107,7 +107,11 @@ CHECKS.update({
         "case, delimiters iff configured, begin/end keywords per dialect and "
         "container class, end-statement names iff configured, indentation = "
         "level x indent, '=' alignment of statements that fit, symbol "
-        "strings on one line, units only after numbers, PDS3 no tabs, final "
+        "strings on one line and between apostrophes (short one-line texts "
+        "with an inner blank; also with the PDS3 options left to their "
+        "defaults), units only after numbers, ODL/PDS3 set and sequence forms "
+        "(no empty sequence, at most two dimensions, sets hold scalars, PDS3 "
+        "sets no reals / dates / units), PDS3 no tabs, final "
         "END line form, statement structure equal to the input module.",
         "Scanner rules of DESIGN 3.8 (quotes tracked by a state machine). "
         "Only modules with plain representable names are scanned for "
